@@ -561,10 +561,18 @@ func onlyChildlessEventsOfDeparted(nw *Network, live []*SimNode, pendingJoins in
 	for _, n := range live {
 		isLive[n.Idx] = true
 	}
+	// hasChild[h]: h has a descendant created by a validator that still takes
+	// part (or by an unknown creator). An event of a departed validator whose
+	// only descendants are later events of departed validators is as unreachable
+	// for the rounds of the remaining ones as a childless one (thorough seed 1
+	// case 395: the last two events of the leaver, the second built on the first).
 	hasChild := map[string]bool{}
-	for _, o := range nw.Rec.Order {
-		hasChild[o.SelfParent] = true
-		hasChild[o.OtherParent] = true
+	for i := len(nw.Rec.Order) - 1; i >= 0; i-- {
+		o := nw.Rec.Order[i]
+		if o.CreatorIdx < 0 || isLive[o.CreatorIdx] || hasChild[o.Hash] {
+			hasChild[o.SelfParent] = true
+			hasChild[o.OtherParent] = true
+		}
 	}
 	culprits := map[string]bool{}
 	for _, n := range live {
